@@ -73,6 +73,24 @@ theorem retry_order (prb : Probe) (svr : Server) (h : prb.retries < prb.maxRetri
   exact ⟨_, rfl⟩
 
 
+/-- **`runChoices` is the model's own small-step semantics**: one choice is one `Prog.step1` (the call succeeds)
+or one `Prog.stepFault` (it fails, without / with effect) of the interleaving model `USys`; an exhausted list is
+a client that died at that call boundary.  So the theorems below quantify over exactly the crash and fault
+placements the correspondence run injects. -/
+theorem runChoices_steps {α : Type} (p : Prog α) (s : AbsState) (now : Int) (cs : List Choice) :
+    p.runChoices [] s now = s ∧
+    p.runChoices (.ok :: cs) s now = (p.step1 s now).2.runChoices cs (p.step1 s now).1 now ∧
+    p.runChoices (.faultNoEffect :: cs) s now = (p.stepFault false s now).2.runChoices cs (p.stepFault false s now).1 now ∧
+    p.runChoices (.faultEffect :: cs) s now = (p.stepFault true s now).2.runChoices cs (p.stepFault true s now).1 now := by
+  cases p with
+  | ret a => refine ⟨rfl, ?_, ?_, ?_⟩ <;> (cases cs <;> rfl)
+  | call c k =>
+    refine ⟨rfl, rfl, ?_, ?_⟩
+    · simp only [Prog.runChoices, Prog.stepFault]
+      cases c.faultReply <;> rfl
+    · simp only [Prog.runChoices, Prog.stepFault]
+      cases c.faultReply <;> rfl
+
 /-! ## every crash point, every fault placement -/
 
 /-- **heartbeat-triggered discovery.**  From a backed, keyed store, `reportserver.Execute` leaves every retry mark
